@@ -30,7 +30,7 @@ for item in "$@"; do
   [ $s1 -eq 0 ] || { res "EXISTING-SUITE-FAILS-WITH-PATCH ($(grep -m1 -- '--- FAIL' $V/seed-suite.log))"; continue; }
   out=""; caught=""
   for c in $CHECKS; do
-    o=$(VF_REPO=$R VF_NPROC=5 VF_BUDGET_S=480 VF_RACE_BUDGET_S=240 VF_MIN_S=5 $V/bin/vfcheck run $c quick 2>&1); rc=$?
+    o=$(VF_REPO=$R VF_NPROC=${LANE_NPROC:-5} VF_BUDGET_S=480 VF_RACE_BUDGET_S=240 VF_MIN_S=5 $V/bin/vfcheck run $c quick 2>&1); rc=$?
     if [ $rc -eq 1 ]; then caught="$caught $c"; out="$out$c: $(echo "$o" | grep -m1 'class=' | cut -c1-260)\n";
     elif [ $rc -ne 0 ]; then out="$out$c: TROUBLE rc=$rc $(echo "$o" | tail -2 | cut -c1-200)\n"; fi
   done
